@@ -1,20 +1,39 @@
 (* C15: the model side of the shared-formula correspondence; same sub-commands and canonical
    answers as harness/src/cmds/sharedfmla.rs.
-     rcn  <hex text> <dr> <dc>                 -> ok:<hex> | err | panic
-     tok  <tokens> <dr> <dc> <hex render>      -> <model>|<spec hex>|<known>|<known_v>|<inrange>|<wf>|<render agrees>
-     c2n / cn2n / grc / gdim                   -> as on the Rust side
-     sheet <cells> <path> <hex name>           -> canonical Range<String> text of worksheet_formula
-   token syntax (',' separated):  R<ca><ra>:<col>:<row>  S<q>:<hex>  F:<hex>  N:<hex>
-                                  M:<hex ip>:<hex fp|->:<-|+hex|~hex>  Q:<hex>  Y:<code>  E:<k>
+     rcn  <hex text> <dr> <dc> <alnum>                -> ok:<hex> | err | panic
+     tok  <tokens> <dr> <dc> <hex render> <alnum>     -> <model>|<spec hex>|<clip hex>|<known>|<known_at>|<inrange>|<wf>|<render agrees>
+     c2n / cn2n / grc / gdim                          -> as on the Rust side
+     sheet <cells> <path> <hex name> <alnum>          -> canonical Range<String> text of worksheet_formula
+   <alnum> = ','-separated decimal scalar values: the non-ASCII characters for which Rust's
+   char::is_alphanumeric is true (obtained by the Python driver from `vh sharedfmla alnum`).
+   The oracle [is_alnum] of the Coq model is instantiated with: the ASCII definition below 128
+   (SharedFmla.ascii_alnum), membership in that list above.
+   token syntax (',' separated):  R<ca><ra>:<col>:<row>  C<a1><a2>:<c1>:<c2>  W<a1><a2>:<r1>:<r2>
+                                  S<q>:<hex>  T:<hex>:<hex>  F:<hex>  N:<hex>
+                                  M:<hex ip>:<hex fp|->:<-|+hex|~hex|=hex>  Q:<hex>  B:<hex>
+                                  Y:<code>  E:<k>
    cell syntax (';' separated):   <row>:<col>:<kind>, kind = - | P.<hex> | M.<si>.<hexref>.<hex> |
                                   m.<si>.<hex> | B *)
 open Conv
 open Prelude
 open SharedFmla
 
+let oracle (s : string) : BinNums.coq_N -> bool =
+  let tbl = Hashtbl.create 64 in
+  List.iter (fun x -> if x <> "" then Hashtbl.replace tbl (int_of_string x) ()) (String.split_on_char ',' s);
+  fun c ->
+    let i = int_of_n c in
+    if i < 128 then ascii_alnum c else Hashtbl.mem tbl i
+
 let bytes_answer (o : BinNums.coq_N list outcome) : string =
   match o with
   | Ok b -> "ok:" ^ hex_of_bytes b
+  | Err _ -> "err"
+  | Panic -> "panic"
+  | OutOfFuel -> "fuel"
+let text_answer (o : BinNums.coq_N list outcome) : string =
+  match o with
+  | Ok b -> "ok:" ^ hex_of_scalars b
   | Err _ -> "err"
   | Panic -> "panic"
   | OutOfFuel -> "fuel"
@@ -25,16 +44,22 @@ let parse_token (s : string) : token =
   let k = f.(0) in
   match k.[0] with
   | 'R' -> TRef (b01 k.[1], n_of_string f.(1), b01 k.[2], n_of_string f.(2))
+  | 'C' -> TColRange (b01 k.[1], n_of_string f.(1), b01 k.[2], n_of_string f.(2))
+  | 'W' -> TRowRange (b01 k.[1], n_of_string f.(1), b01 k.[2], n_of_string f.(2))
   | 'S' -> TSheet (b01 k.[1], scalars_of_hex f.(1))
+  | 'T' -> TSheetRange (scalars_of_hex f.(1), scalars_of_hex f.(2))
   | 'F' -> TFunc (scalars_of_hex f.(1))
   | 'N' -> TName (scalars_of_hex f.(1))
   | 'M' ->
     let fp = if f.(2) = "-" then None else Some (scalars_of_hex f.(2)) in
     let ex =
       if f.(3) = "-" then None
-      else Some ((f.(3).[0] = '~'), scalars_of_hex (String.sub f.(3) 1 (String.length f.(3) - 1))) in
+      else
+        let sg = match f.(3).[0] with '~' -> Some true | '+' -> Some false | _ -> None in
+        Some (sg, scalars_of_hex (String.sub f.(3) 1 (String.length f.(3) - 1))) in
     TNum (scalars_of_hex f.(1), fp, ex)
   | 'Q' -> TStr (scalars_of_hex f.(1))
+  | 'B' -> TBrack (scalars_of_hex f.(1))
   | 'Y' -> TSym (n_of_string f.(1))
   | 'E' -> TErr (n_of_string f.(1))
   | _ -> failwith "bad token"
@@ -45,15 +70,17 @@ let opt_class o = match o with Some k -> string_of_n k | None -> "-"
 
 let tok (args : string list) : string =
   match args with
-  | ts :: dr :: dc :: hexr :: _ ->
+  | ts :: dr :: dc :: hexr :: al :: _ ->
+    let is_alnum = oracle al in
     let ts = parse_tokens ts in
     let off = (z_of_string dr, z_of_string dc) in
     let text = render_all ts in
-    let model = bytes_answer (replace_cell_names text off) in
+    let model = text_answer (replace_cell_names is_alnum text off) in
     let spec = hex_of_scalars (render_all (List.map (translate off) ts)) in
-    String.concat "|" [ model; spec; opt_class (known_C15 ts); opt_class (known_C15_v ts);
+    let clip = hex_of_scalars (render_all (List.map (translate_clip off) ts)) in
+    String.concat "|" [ model; spec; clip; opt_class (known_C15 ts); opt_class (known_at off ts);
                         (if in_rangeb ts off then "1" else "0");
-                        (if wf_formula ts then "1" else "0");
+                        (if wf_formula is_alnum ts then "1" else "0");
                         (if hex_of_scalars text = String.lowercase_ascii hexr then "1" else "0") ]
   | _ -> "badargs"
 
@@ -76,30 +103,32 @@ let parse_cell (s : string) : fcell =
     ((n_of_string r, n_of_string c), kind)
   | _ -> failwith "bad cell"
 
-let fval_hex v = match v with VText s -> hex_of_scalars s | VBytes b -> hex_of_bytes b
-
 let sheet (args : string list) : string =
-  let cells = List.map parse_cell (split_on ';' (List.hd args)) in
-  match sheet_formulas cells with
-  | Err _ -> "err:other"
-  | Panic -> "panic"
-  | OutOfFuel -> "fuel"
-  | Ok vs ->
-    let cells = List.map (fun (p, v) -> (p, fval_hex v)) vs in
-    (match Range.from_sparse "" cells with
-     | Panic -> "panic" | Err _ -> "err:other" | OutOfFuel -> "fuel"
-     | Ok r ->
-       (match Range.start r, Range.end_ r with
-        | Some s, Some e ->
-          let rows = List.map (fun row -> String.concat "," row) (Range.rows r) in
-          Printf.sprintf "R[%s,%s,%s,%s|%s]" (string_of_n (fst s)) (string_of_n (snd s))
-            (string_of_n (fst e)) (string_of_n (snd e)) (String.concat "/" rows)
-        | _ -> "R[-]"))
+  match args with
+  | cs :: _path :: _name :: al :: _ ->
+    let is_alnum = oracle al in
+    let cells = List.map parse_cell (split_on ';' cs) in
+    (match sheet_formulas is_alnum cells with
+     | Err _ -> "err:other"
+     | Panic -> "panic"
+     | OutOfFuel -> "fuel"
+     | Ok vs ->
+       let cells = List.map (fun (p, v) -> (p, hex_of_scalars v)) vs in
+       (match Range.from_sparse "" cells with
+        | Panic -> "panic" | Err _ -> "err:other" | OutOfFuel -> "fuel"
+        | Ok r ->
+          (match Range.start r, Range.end_ r with
+           | Some s, Some e ->
+             let rows = List.map (fun row -> String.concat "," row) (Range.rows r) in
+             Printf.sprintf "R[%s,%s,%s,%s|%s]" (string_of_n (fst s)) (string_of_n (snd s))
+               (string_of_n (fst e)) (string_of_n (snd e)) (String.concat "/" rows)
+           | _ -> "R[-]")))
+  | _ -> "badargs"
 
 let run (args : string list) : string =
   match args with
-  | "rcn" :: h :: dr :: dc :: _ ->
-    bytes_answer (replace_cell_names (scalars_of_hex h) (z_of_string dr, z_of_string dc))
+  | "rcn" :: h :: dr :: dc :: al :: _ ->
+    text_answer (replace_cell_names (oracle al) (scalars_of_hex h) (z_of_string dr, z_of_string dc))
   | "tok" :: rest -> tok rest
   | "c2n" :: r :: c :: _ -> bytes_answer (Col26.coordinate_to_name (n_of_string r, n_of_string c))
   | "cn2n" :: n :: _ -> bytes_answer (Col26.column_number_to_name (n_of_string n))
